@@ -112,6 +112,20 @@ def ordering_rule(repo: Repo, m: ModuleInfo, res: CheckResult, prop: str = "C15"
                                                               or norm(c.func) == "sorted") for c in ast.walk(oa)):
             res.add(Finding(prop, "ORDER.args-not-ordered", m.rel, f"{cname}._order_args", "no sort",
                             "_order_args no longer sorts its arguments", oa.lineno if oa else ci.node.lineno))
+        # every path of _order_args goes through the sort: an early return (a "fast path" for inputs assumed to be sorted
+        # already) makes the normal form depend on how the hint was spelled
+        if oa is not None:
+            sort_lines = [c.lineno for c in ast.walk(oa) if isinstance(c, ast.Call) and (
+                (isinstance(c.func, ast.Attribute) and c.func.attr == "sort") or norm(c.func) == "sorted")]
+            first_sort = min(sort_lines) if sort_lines else 10 ** 9
+            for r in [x for x in ast.walk(oa) if isinstance(x, ast.Return) and x.value is not None]:
+                res.evaluated(f"order:{cname}._order_args:return:{norm(r.value)[:30]}", True)
+                has_sorted = any(isinstance(c, ast.Call) and norm(c.func) == "sorted" for c in ast.walk(r.value))
+                if r.lineno < first_sort and not has_sorted:
+                    res.add(Finding(prop, "ORDER.unsorted-path", m.rel, f"{cname}._order_args", norm(r)[:100],
+                                    f"`{norm(r)[:80]}` leaves _order_args before the arguments are sorted: for those inputs the "
+                                    "member order is the order of writing, so equal unions spelled differently (Optional[X] vs "
+                                    "Union[None, X] with a NewType / Any / Annotated member) get different normal forms", r.lineno))
     # the ordering key is a function of the type alone: origin + the same key applied recursively to every argument;
     # leaves are keyed with repr() (str() conflates 1 and '1'), nothing spelling-dependent (source, repr of norm types)
     for cname in ("_UnionNormType", "_LiteralNormType"):
@@ -145,6 +159,17 @@ def ordering_rule(repo: Repo, m: ModuleInfo, res: CheckResult, prop: str = "C15"
                                         "on how the hint was spelled (source)")
                 if ".source" in txt or "_source" in txt:
                     problems.append("the key depends on the source spelling")
+        if cname == "_UnionNormType":
+            # an argument may be a TUPLE of normalised types (the parameter list of Callable): repr() of it formats the
+            # members with their `source`, so the key must recurse into tuples as well
+            tuple_branch = False
+            for node in ast.walk(mo):
+                if isinstance(node, ast.If) and f"isinstance({obj}, tuple)" in norm(node.test).replace("(tuple, list)", "tuple"):
+                    tuple_branch = any(isinstance(c, ast.Call) and norm(c.func) == "self._make_orderable"
+                                       for s_ in node.body for c in ast.walk(s_))
+            if not tuple_branch:
+                problems.append("a tuple argument (the parameter list of Callable) is keyed with repr(), which prints the "
+                                "normalised parameter types together with their source spelling (List[int] vs list[int])")
         leaf = [r for r in rets if isinstance(r.value, ast.Call) and norm(r.value.func) in ("str", "repr")
                 and r.value.args and norm(r.value.args[0]) == obj]
         leaf += [r.value.orelse for r in rets if isinstance(r.value, ast.IfExp)]  # type: ignore[misc]
@@ -351,4 +376,26 @@ def implicit_params_rule(repo: Repo, res: CheckResult) -> None:
     if nt is None or "self._with_module_namespace(origin.__module__)" not in norm(nt):
         res.add(Finding("C15", "IMPLICIT.forward-ref-namespace", repo.mod(NT).rel, "TypeNormalizer._norm_type_var", "namespace",
                         "TypeVar limits must be normalised in the TypeVar's module namespace", nt.lineno if nt else 0))
+    # bare builtin / abstract generics: the table that supplies their type variables must know every generic collection the
+    # library loads and dumps (otherwise `Mapping` and `Mapping[Any, Any]` normalise differently)
+    cm = repo.mod("type_tools/constants")
+    tbl = None
+    for st in cm.tree.body:
+        if isinstance(st, (ast.Assign, ast.AnnAssign)) and norm(st.targets[0] if isinstance(st, ast.Assign) else st.target) == "BUILTIN_ORIGIN_TO_TYPEVARS":
+            tbl = st.value
+    if not isinstance(tbl, ast.Dict):
+        raise AnalysisError("anchor vanished: BUILTIN_ORIGIN_TO_TYPEVARS")
+    arity = {norm(k): len(v.elts) if isinstance(v, ast.Tuple) else -1 for k, v in zip(tbl.keys, tbl.values)}
+    want = {"list": 1, "set": 1, "frozenset": 1, "dict": 2, "collections.abc.Iterable": 1, "collections.abc.Reversible": 1,
+            "collections.abc.Collection": 1, "collections.abc.Sequence": 1, "collections.abc.MutableSequence": 1,
+            "collections.abc.Set": 1, "collections.abc.MutableSet": 1, "collections.abc.Mapping": 2,
+            "collections.abc.MutableMapping": 2}
+    for k, a in want.items():
+        n += 1
+        res.evaluated(f"implicit:builtin-table:{k}", True)
+        if arity.get(k) != a:
+            res.add(Finding("C15", "IMPLICIT.builtin-table", cm.rel, "BUILTIN_ORIGIN_TO_TYPEVARS", f"{k}: {arity.get(k)} type variables",
+                            f"the bare generic `{k}` must receive {a} implicit parameter(s) (Any): with "
+                            f"{arity.get(k, 'no entry')} in the table `{k.split('.')[-1]}` and `{k.split('.')[-1]}[Any{', Any' if a == 2 else ''}]` "
+                            "normalise to unequal forms", tbl.lineno))
     res.count("IMPLICIT.obligations", n, 4)
